@@ -35,7 +35,30 @@ P = 'circus.process:Process.'
 
 
 def check(run, ctx):
-    run.each(ctx, [r1, r2, r3, r4, r5, r6, r7, r8, r9])
+    run.each(ctx, [r1, r2, r3, r4, r5, r6, r7, r8, r9, r10])
+
+
+def r10(run, ctx):
+    run.rule('R10', "a watcher's process table is written by the watcher alone")
+    # R1-R9 reason about the methods of Watcher; they say nothing about the table if other
+    # code inserts into it or pops from it (no status test, no event, no reap, no kill)
+    from rules.common import mutator_nodes
+    n = 0
+    for f in ctx.p.all_functions():
+        if not f.module.name.startswith('circus.') or f.module.name.startswith('circus.tests'):
+            continue
+        owner = f.cls.key if f.cls is not None else (
+            f.outer_cls.key if getattr(f, 'outer_cls', None) is not None else None)
+        if owner == 'circus.watcher:Watcher':
+            n += 1
+            continue
+        for node, what in mutator_nodes(ctx, f):
+            if 'processes' in what and 'numprocesses' not in what:
+                run.fail('R10', f, node.ast, '%s %s from outside Watcher: the entry bypasses '
+                         'registration, status tests, events and reaping (a worker put into a '
+                         'stopped watcher is never managed; one taken out is never reaped)'
+                         % (f.qualname, what), construct='process table written outside Watcher')
+    run.count('R10', n, 20, 'Watcher methods (the only writers)')
 
 
 def r9(run, ctx):
